@@ -186,3 +186,38 @@ Theorem c20_check_clause1 : forall a o, o_panic o = false ->
   (~ In 1 (check_addr a o) <-> (o_valid o = true <-> AddressG Documented a)).
 Proof. exact check_clause1. Qed.
 Print Assumptions c20_check_clause1.
+
+(* Satisfiability of the hypotheses used above. *)
+Example c20_grammar_inhabited :
+  AddressG Documented (B "tls://[2001:db8::1.2.3.4]:7770") /\ AddressG Documented (B "tcp://EPFL.ch.:+80") /\
+  AddressG Documented (B "local://:0") /\ AddressG Lenient (B "tcp://[localhost]:80") /\
+  ~ AddressG Documented (B "tcp://[localhost]:80") /\ ~ AddressG Lenient (B "tcp://1.2.3.4:65536").
+Proof. exact grammar_inhabited. Qed.
+Print Assumptions c20_grammar_inhabited.
+
+Example c20_parts_inhabited :
+  exists ty hp h p, AddressParts (mode_of pinned) (B "tcp://[::1]:2000") ty hp h p /\
+                    host pinned (B "tcp://[::1]:2000") = Ok h /\ h = B "::1" /\ p = B "2000".
+Proof. exact parts_inhabited. Qed.
+Print Assumptions c20_parts_inhabited.
+
+Example c20_invalid_inhabited : valid pinned (B "tls://1000.0.0.4:2000") = Ok false /\ valid pinned [] = Ok false.
+Proof. exact invalid_inhabited. Qed.
+Print Assumptions c20_invalid_inhabited.
+
+Example c20_listen_inhabited :
+  get_listen_address pinned (B "tcp://1.2.3.4:1234") [] = Ok (B ":1234") /\
+  get_listen_address pinned (B "tcp://1.2.3.4:1234") (B "4.3.2.1") = Ok (B "4.3.2.1:1234") /\
+  get_listen_address pinned (B "tcp://1.2.3.4:1234") (B "4.3.2.1:4321") = Ok (B "4.3.2.1:4321") /\
+  get_listen_address pinned (B "tcp://1.2.3.4:1234") (B "::1") = Err.
+Proof. exact listen_inhabited. Qed.
+Print Assumptions c20_listen_inhabited.
+
+Example c20_ws_inhabited :
+  get_ws_host_port pinned (B "tcp://8.8.8.8:7770") [] false = WOk (B "8.8.8.8:7771") /\
+  get_ws_host_port pinned (B "tcp://8.8.8.8:7770") [] true = WOk (B "0.0.0.0:7771") /\
+  get_ws_host_port pinned (B "tcp://8.8.8.8:7770") (B "https://example.com/path") false = WOk (B "example.com:443") /\
+  get_ws_host_port pinned (B "tcp://8.8.8.8:7770") (B "http://[::1]:8080") false = WOk (B "[::1]:8080") /\
+  get_ws_host_port pinned (B "tcp://8.8.8.8:7770") (B "http://h:65536") false = WErr.
+Proof. exact ws_inhabited. Qed.
+Print Assumptions c20_ws_inhabited.
